@@ -255,7 +255,7 @@ class LexModel:
     def producible(self) -> Set[str]:
         out = set()
         for name, rm in self.rules.items():
-            if rm.rule.func is None or rm.returns_token != 'never':
+            if rm.returns_token != 'never':
                 if rm.type_expr is None:
                     out.add(name)
         out |= set(self.reserved.values())
@@ -291,6 +291,8 @@ def build(F: Facts, g: Optional[Grammar] = None) -> LexModel:
                 raise AnalysisError('lexer: rule t_%s returns something that is neither its token nor None' % r.name)
             rm.returns_token = 'always' if rets and all(x == 'tok' for x in rets) else (
                 'never' if all(x == 'none' for x in rets) else 'sometimes')
+        elif r.dropped:
+            rm.returns_token = 'never'
         rules[r.name] = rm
         order.append(r.name)
     # keyword table: the dict the identifier rule consults
